@@ -25,8 +25,8 @@ open Go Logrange.Date Driver
 namespace C20Driver
 
 def gterms : List Term := Logrange.Generated.C20.terms
-def colFmts : List CFormat := Logrange.Generated.C20.collectorFormats.map (compile gterms)
-def lqlFmts : List CFormat := Logrange.Generated.C20.lqlFormats.map (compile gterms)
+def colFmts : List CFormat := Logrange.Generated.C20.collectorFormats.map (compile gterms Logrange.Generated.C20.regexpLeftGuard)
+def lqlFmts : List CFormat := Logrange.Generated.C20.lqlFormats.map (compile gterms Logrange.Generated.C20.regexpLeftGuard)
 def gadj : Adjust := { year := Logrange.Generated.C20.formatParseAdjustsYear, date := Logrange.Generated.C20.formatParseAdjustsDate }
 def gcfg : LqlCfg :=
   { lower := Logrange.Generated.C20.lqlLowerCases, trim := Logrange.Generated.C20.lqlTrimsBlanks,
@@ -87,11 +87,11 @@ def stepU (toks : List String) : String :=
      | none => ("bad-op"))
   | ["one", f, y, m, d, t] =>
     (match nowOf y m d with
-     | some now => (showP (parseFirst gadj [compile gterms (unhex f)] now (unhex t)))
+     | some now => (showP (parseFirst gadj [compile gterms Logrange.Generated.C20.regexpLeftGuard (unhex f)] now (unhex t)))
      | none => ("bad-op"))
   | ["fmt", f] =>
-    let cf := compile gterms (unhex f)
-    (s!"layout={hex (dateMap gterms (unhex f))} rx={hex cf.rxText} loc={b2s cf.hasLocation} year={b2s cf.hasYear} nodate={b2s cf.noDate} rxok={b2s cf.rx.isSome} layok={b2s cf.layout.supported}")
+    let cf := compile gterms Logrange.Generated.C20.regexpLeftGuard (unhex f)
+    (s!"layout={hex (dateMap gterms (unhex f))} rx={hex cf.rxText} loc={b2s cf.hasLocation} year={b2s cf.hasYear} nodate={b2s cf.noDate} guard={b2s cf.guard} rxok={b2s cf.rx.isSome} layok={b2s cf.layout.supported}")
   | ["tparse", l, v] =>
     (match timeParse (unhex l) (unhex v) with
      | .ok c => (s!"ok 0 {showCivil c}")
